@@ -311,8 +311,8 @@ def rule_SH(run: Run) -> RuleResult:
     lps = analyse_function(Ctx(repo), ld.module, ld.node)
     from . import rules_runtime as RTN
     RTN._rt(run)
-    CUR = f"call:setdefault({RTN.T_KEY},call:threading.current_thread,new:Runtime(Const(None)))"
-    rets = [p.ret.key() if p.status == "ret" and p.ret is not None else p.status for p in lps]
+    CUR = "<CUR>"
+    rets = [RTN.cur_norm(run, p.ret.key()) if p.status == "ret" and p.ret is not None else p.status for p in lps]
     # handle(LogRequest, handler) or the mapping form handle({LogRequest: handler}) — the same derived runtime
     ok = bool(rets) and "log" in tw_short and all(r in (f"call:handle({CUR},class<labrea.logging.LogRequest>,Fn({tw_short['log']};))",
                                                         f"call:handle({CUR},dict(item(class<labrea.logging.LogRequest>,Fn({tw_short['log']};))))",
